@@ -1,11 +1,11 @@
 """C02 — a sealed generation records exactly the tree that is on disk."""
 from . import _scn
-from .. import monitors as M
+from .. import monitors as M, largefiles
 
 
 def run(ctx):
     scs = _scn.standard_pool(ctx, ctx.scale(70, 1200), ctx.scale(45, 600))
-    return _scn.run_scn(ctx, scs, M.m_c02, witness_ids=("D5a", "D10", "D4b"),
+    return _scn.run_scn(ctx, scs, M.m_c02, extra_fails=largefiles.extra(ctx), witness_ids=("D5a", "D10", "D4b"),
         assumptions=["trees of regular files and directories (no symbolic links); names are valid UTF-8 without control characters",
                      "'excluded' is defined by pathspec gitwildmatch applied to the path relative to the command root"])
 
